@@ -212,14 +212,28 @@ def judge(pp, subs, world, act, via):
         want, fexc = None, e
     env.clear_caches(pp)
     fp = e1.exact_world(called_on)
+    repeat = None
     if via == 'direct':
-        obs = e1.apply(pp, subs, world, act)
+        held = {}
+        obs = e1.apply(pp, subs, world, act, held)
+        # the same call once more through the very same slice objects: operations return new values, so it must do the same
+        repeat = e1.apply(pp, subs, world, act, held)
     else:
         obs = e1.apply_via_recipe(pp, subs, called_on, act, prelude)
     oc = 'ok' if obs['ok'] else type(obs['exc']).__name__
     cls = (feat, 'fold-raises' if fexc is not None else want if isinstance(want, str) else 'fold-ok', oc)
     if e1.exact_world(called_on) != fp:
         return [V(f"plate-op | argument-mutated | {feat}", f"{desc} modified its arguments", case)], cls
+    if repeat is not None:
+        same = repeat['ok'] == obs['ok'] and (type(repeat['exc']) is type(obs['exc']))
+        if same and obs['ok']:
+            a, b = e1.commit(world, obs), e1.commit(world, repeat)
+            same = all(same_container(x, y) is None for (_, x), (_, y) in zip(monitors.all_units(a), monitors.all_units(b)))
+        if not same:
+            return [V(f"plate-op | repeated-call-differs | {feat}",
+                      f"{desc}: the same call made a second time through the same slice objects "
+                      f"{'returns something else' if repeat['ok'] else 'raises ' + type(repeat['exc']).__name__} "
+                      f"(the first {'returned' if obs['ok'] else 'raised ' + type(obs['exc']).__name__})", case)], cls
     if want == 'DONTCARE':
         return [], cls
     if want in ('SHAPE', 'OVERLAP'):
@@ -299,7 +313,7 @@ def _worker(item):
             if e1.exact_world(world) != fp:
                 subs, world = e1.build(pp, vidx, spec, hist)
                 fp = e1.exact_world(world)
-    return viols, classes, 3 * (hi - lo)
+    return viols, classes, 4 * (hi - lo)
 
 
 def run(col):
